@@ -19,6 +19,7 @@ import Stfs.Proofs.IndexLemmas
 import Stfs.Model.Fs
 import Stfs.Props.C01
 import Stfs.Proofs.Scan
+import Stfs.Gen.Fingerprints
 namespace Stfs.C17
 open Stfs Stfs.Idx
 
@@ -347,5 +348,15 @@ example : Plain [(n!"d"), (n!"f")] := by
   intro c hc
   simp only [List.mem_cons, List.mem_nil_iff, or_false] at hc
   rcases hc with rfl | rfl <;> refine ⟨by decide, by decide, by decide, by decide⟩
+
+-- MIRRORS-BEGIN (maintained by bin/update-mirrors)
+/-- The parts of the model this file's theorems are about were written by hand against these
+    versions of the functions they mirror (fingerprint of each function's comment-free source,
+    regenerated on every run).  When one of them changes, this obligation fails: the change has
+    to be confirmed harmless by the correspondence, or shows up as its failing input. -/
+theorem model_mirrors_source :
+    [(n!"persisters.MetadataPersister.getSanitizedPath"), (n!"persisters.MetadataPersister.GetRootPath"), (n!"persisters.MetadataPersister.GetHeader"), (n!"cache.NewCacheFilesystem"), (n!"pathext.IsRoot")].map Gen.fingerprintOf =
+    [some 134905088822168908, some 1811262850778349076, some 2215020636047172842, some 1719190592749692221, some 960647649373867508] := by decide
+-- MIRRORS-END
 
 end Stfs.C17
